@@ -331,6 +331,23 @@ def main_wrap(fn):
     except BaseException as e:     # noqa: a crash of the harness is a machinery failure, never a verdict (no exit 1 without a VIOLATION line)
         import traceback
         traceback.print_exc()
+        # ... unless the exception was RAISED BY THE CODE UNDER TEST (innermost frame inside the repository tree) while the
+        # check drove it through a scenario of the specification: that is a finding about the code, reported as such
+        try:
+            tb = traceback.extract_tb(e.__traceback__)
+            root = os.path.realpath(os.environ.get("VERIF_REPO", "/repo")) + os.sep
+            inner = os.path.realpath(tb[-1].filename) if tb else ""
+            if inner.startswith(root) and Run.live and not isinstance(e, (KeyboardInterrupt, MemoryError)):
+                r = Run.live[-1]
+                where = f"{os.path.relpath(inner, root)}:{tb[-1].lineno}"
+                r.violation(f"exception/{type(e).__name__}/{os.path.relpath(inner, root)}", "the code under test raised an exception while the check drove it through "
+                            f"a scenario the specification allows ({where}): {str(e)[:300]}", {"where": where, "exception": type(e).__name__,
+                                                                                          "trace": [f"{os.path.basename(f.filename)}:{f.lineno}:{f.name}" for f in tb[-8:]]})
+                sys.exit(r.finish())
+        except SystemExit:
+            raise
+        except BaseException:       # noqa
+            pass
         print(f"MACHINERY-FAILURE: unexpected {type(e).__name__} in the harness: {e}", file=sys.stderr)
         for r in list(Run.live):
             shutil.rmtree(r.workdir, ignore_errors=True)
